@@ -462,6 +462,10 @@ func exportedNameTable(v ssa.Value) bool {
 		// the value of a slice variable
 		if x.Op == token.MUL {
 			g, _ = x.X.(*ssa.Global)
+			// the value of a local array written out as a literal
+			if a, isAlloc := x.X.(*ssa.Alloc); isAlloc && localExportedNames(a, 0) {
+				return true
+			}
 		}
 	case *ssa.Global:
 		// an array variable indexed in place
@@ -479,6 +483,9 @@ func exportedNameTable(v ssa.Value) bool {
 		}
 		if n != 1 {
 			g = nil
+		}
+		if g == nil && localExportedNames(x, 0) {
+			return true
 		}
 	}
 	if g == nil || g.Pkg == nil {
@@ -507,6 +514,75 @@ func exportedNameTable(v ssa.Value) bool {
 		}
 	}
 	return true
+}
+
+// localExportedNames: a is a local array of strings written out as a literal ([...]string{"Slug", "ID"}): every
+// element is stored once, a constant exported name, and nothing else writes the array (a copy made for a range
+// statement is followed to its source).
+func localExportedNames(a *ssa.Alloc, depth int) bool {
+	pt, ok := a.Type().Underlying().(*types.Pointer)
+	if !ok || depth > 2 || a.Referrers() == nil {
+		return false
+	}
+	at, ok := pt.Elem().Underlying().(*types.Array)
+	if !ok || at.Len() == 0 {
+		return false
+	}
+	set := map[int64]bool{}
+	for _, ref := range *a.Referrers() {
+		switch x := ref.(type) {
+		case *ssa.IndexAddr:
+			if x.X != ssa.Value(a) || x.Referrers() == nil {
+				continue
+			}
+			for _, r2 := range *x.Referrers() {
+				st, isSt := r2.(*ssa.Store)
+				if !isSt {
+					if _, isLd := r2.(*ssa.UnOp); isLd {
+						continue
+					}
+					if _, isDbg := r2.(*ssa.DebugRef); isDbg {
+						continue
+					}
+					return false // the element's address goes elsewhere
+				}
+				if st.Addr != ssa.Value(x) {
+					return false
+				}
+				ic, isC := x.Index.(*ssa.Const)
+				c, isCV := st.Val.(*ssa.Const)
+				if !isC || !isCV || c.Value == nil || c.Value.Kind() != constant.String {
+					return false
+				}
+				name := constant.StringVal(c.Value)
+				if name == "" || name[0] < 'A' || name[0] > 'Z' || set[ic.Int64()] {
+					return false
+				}
+				set[ic.Int64()] = true
+			}
+		case *ssa.Store:
+			if x.Addr == ssa.Value(a) {
+				// the whole array copied in: from another literal
+				ld, isLd := x.Val.(*ssa.UnOp)
+				if !isLd || ld.Op != token.MUL {
+					return false
+				}
+				src, isAlloc := ld.X.(*ssa.Alloc)
+				if !isAlloc || !localExportedNames(src, depth+1) {
+					return false
+				}
+				for i := int64(0); i < at.Len(); i++ {
+					set[i] = true
+				}
+			}
+		case *ssa.UnOp, *ssa.DebugRef:
+		case *ssa.Slice:
+			return false
+		default:
+			return false
+		}
+	}
+	return int64(len(set)) == at.Len()
 }
 
 // kindTableSet: v is the value of a package-level []reflect.Kind that only its initialiser writes; the set of its elements.
@@ -4013,6 +4089,23 @@ func staticRTypeOf(c *ssa.Call) types.Type {
 		}
 	}
 	if operand == nil {
+		// reflect.TypeOf((*T)(nil)).Elem(): the way to name an interface type
+		if recv, _, ok := reflectTypeInvoke(c, "Elem"); ok {
+			if rc, isCall := throughCell(recv).(*ssa.Call); isCall {
+				if pt, isPtr := staticRTypeOf(rc).(*types.Pointer); isPtr {
+					return pt.Elem()
+				}
+			}
+			return nil
+		}
+		// a helper of the module without parameters that names a type: typeOf[T]() as instantiated
+		if g := c.Call.StaticCallee(); g != nil && inModule(g) && len(g.Params) == 0 && len(g.Blocks) == 1 && len(c.Call.Args) == 0 {
+			if ret, isRet := g.Blocks[0].Instrs[len(g.Blocks[0].Instrs)-1].(*ssa.Return); isRet && len(ret.Results) == 1 {
+				if rc, isCall := ret.Results[0].(*ssa.Call); isCall && rc.Parent() == g {
+					return staticRTypeOf(rc)
+				}
+			}
+		}
 		return nil
 	}
 	if mi, ok := throughCell(operand).(*ssa.MakeInterface); ok && !types.IsInterface(mi.X.Type()) {
